@@ -28,7 +28,7 @@ STEP_KINDS = [
     "prop_flip_required", "prop_replace_element", "class_kw", "elements_assign", "set_default",
     "prop_replace_other_source", "prop_dict_api", "prop_source_assign", "prop_rekey",
 ]
-REQUIRED_COUNTERS = ["histories", "compare.calls", "compare.accepted", "compare.rejected", "triples", "compare.model_consulted",
+REQUIRED_COUNTERS = ["histories.wide_model", "histories", "compare.calls", "compare.accepted", "compare.rejected", "triples", "compare.model_consulted",
                      "target.Object", "target.Element"] + [f"step.{k}" for k in STEP_KINDS]
 
 ANCHORS = [
@@ -501,6 +501,13 @@ def run_shard(ctx):
         spec = gen.klass(2) if idx % 2 else gen.spec(2)
         if spec["t"] in ("ref", "Nothing"):
             continue
+        if idx % 8 == 5 and isinstance(spec.get("props"), dict):
+            # a WIDE model (a library may index, cache or batch past some number of properties - and the
+            # less common ways of editing the properties mapping then have to keep that in step)
+            for number in range(rng.choice([33, 40, 70])):
+                spec["props"][f"w{number:02d}"] = {"el": {"t": rng.choice(["Integer", "String", "Boolean"]), "kw": {}},
+                                                   "required": False, "source": None}
+            ctx.count("histories.wide_model")
         run_history(ctx, sut, fpm, rng, spec, rng.randint(3, 40) if idx % 10 == 0 else rng.randint(3, 12))
 
 
